@@ -1106,8 +1106,8 @@ class GtLtPlugin(TaggingPlugin):
             node = group[i]
             # If this is a GtLtNode...
             if isinstance(node, self.GtLtNode):
-                # If it's not the last node in the group...
-                if i < lasti:
+                # If it's not the first or the last node in the group...
+                if newgroup and i < lasti:
                     prevnode = newgroup[-1]
                     nextnode = group[i + 1]
                     # If previous was a fieldname and next node has text
